@@ -75,6 +75,14 @@ def ref_dec(code, bits, pos):
 
 
 def execute(line: str):
+    # an optional trailing field "ba1" runs the case with options.bytealigned = True (decoding must not depend on it)
+    if line.endswith(SEP + "ba1"):
+        with options(bytealigned=True):
+            return _execute(line[: -len(SEP + "ba1")])
+    return _execute(line)
+
+
+def _execute(line: str):
     f = line.split(SEP)
     op, extra = f[1], {}
     if op == "enc":
@@ -140,6 +148,8 @@ def _setprop(code, i):
 
 
 def oracle(line: str, out: str, extra: dict):
+    if line.endswith(SEP + "ba1"):
+        line = line[: -len(SEP + "ba1")]
     f = line.split(SEP)
     op = f[1]
     if op == "enc":
@@ -207,6 +217,12 @@ def nontrivial(line):
 
 
 def gen(rng, tier):
+    for l in _gen(rng, tier):
+        # the Lean driver ignores trailing fields
+        yield l + SEP + "ba1" if (l.split(SEP)[1] in ("read", "get", "seq") and rng.random() < 0.3) else l
+
+
+def _gen(rng, tier):
     big = tier != "quick"
     W = 600 if big else 300
     for code in CODES:
